@@ -12,7 +12,12 @@ func vhPadRender(src string, x string) (string, error) {
 func VH_C14_Threshold() {
 	n := symChoice(symParam("N", 4) + 1)
 	s := symString(n)
-	pad := vhRepeat('a', symParam("PAD", 4097))
+	padLen := symParam("PAD", 4097)
+	if symParam("PADSET", 0) == 1 {
+		// sizes around the tokenizer switch and the buffer / pool size classes
+		padLen = []int{4095, 4096, 4097, 8193, 16385, 32769, 65537, 131073, 300001}[symChoice(symParam("PADS", 9))]
+	}
+	pad := vhRepeat('a', padLen)
 	x := symString(1)
 	where := symChoice(2)
 	o0, e0 := vhPadRender(s, x)
